@@ -260,6 +260,8 @@ class Oracle:
     def __init__(self, p):
         self.p = p
         self.lats = lat_of(p)
+        self.raised = {}       # (rel, key) -> number of times the value of the key was raised during the iteration
+        self.rounds = 0
 
     def run(self, inp, max_rounds=500):
         st = {}
@@ -268,7 +270,9 @@ class Oracle:
         for name, rows in inp.items():
             for t in rows:
                 self.add(st, name, tuple(t))
-        for _ in range(max_rounds):
+        self.raised = {}
+        for rnd in range(max_rounds):
+            self.rounds = rnd
             new = []
             for r in self.p["rules"]:
                 for e in self.envs(st, r["body"], 0, {}):
@@ -288,6 +292,7 @@ class Oracle:
                 j = voc.join(self.lats[rel], st[rel][k], v)
                 if j != st[rel][k]:
                     st[rel][k] = j
+                    self.raised[(rel, k)] = self.raised.get((rel, k), 0) + 1
                     return True
                 return False
             st[rel][k] = v
@@ -589,6 +594,8 @@ def const_code(rng, ty):
     if ty == "bool":
         return rng.choice([0, 1])
     if ty == "pair":
+        return rng.choice([0, 1, 2]) * voc.PAIRK + rng.choice([0, 1, 3])
+    if ty == "prod":
         return rng.choice([0, 1, 2]) * voc.PAIRK + rng.choice([0, 1, 3])
     if ty == "set":
         return rng.choice([0, 1, 2, 5, 6, 12])
